@@ -171,7 +171,10 @@ def _variables(e, substs) -> set:
 
     def rec(x):
         if isinstance(x, prim.Variable):
-            out.add(x.name)
+            if x.name in substs and not substs[x.name][0]:
+                rec(substs[x.name][1])
+            else:
+                out.add(x.name)
         elif isinstance(x, prim.Subscript):
             rec(x.aggregate)
             for i in (x.index if isinstance(x.index, tuple) else (x.index,)):
@@ -221,6 +224,8 @@ def kexpr(e, ir: KernelIR) -> str:
         if isinstance(x, prim.Variable):
             if x.name in env:
                 return env[x.name]
+            if x.name in ir.substs and not ir.substs[x.name][0]:
+                return rec(ir.substs[x.name][1], env)     # zero-argument substitution rule
             return f"(var {ser.name(x.name)})"
         if isinstance(x, prim.Subscript):
             idx = x.index if isinstance(x.index, tuple) else (x.index,)
@@ -335,6 +340,8 @@ class KInterp:
         if isinstance(e, prim.Variable):
             if e.name in env:
                 return env[e.name]
+            if e.name in self.ir.substs and not self.ir.substs[e.name][0]:
+                return self.ev(self.ir.substs[e.name][1], env)     # zero-argument substitution rule
             if e.name in self.sizes:
                 return self.sizes[e.name]
             if e.name in self.store and self.store[e.name].shape == ():
